@@ -275,7 +275,7 @@ class Sym:
         if isinstance(v, bool) or isinstance(v, int) or isinstance(v, str) and self.F.consts.get(path, {}).get("ty", "").endswith("str"):
             return ("lit", v)
         if isinstance(v, list):
-            return ("array", tuple(("lit", x) for x in v))
+            return ("array", tuple(("ctor", x["path"], ()) if isinstance(x, dict) else ("lit", x) for x in v))
         return ("const", path)
 
     def discriminant(self, ctor):
@@ -1036,7 +1036,27 @@ class Sym:
                 member = ("call", "core::slice::<impl [T]>::contains", (args[0], x), "")
                 if itm.endswith("::any"):
                     return [(st, member)]
-                return [(st, ("call", "sym::find_eq", (args[0], x), ""))]
+                if itm.endswith("::find") and all(e[0] == "lit" for e in args[0][1]):
+                    return [(st, ("call", "sym::find_eq", (args[0], x), ""))]
+            if len(args[0][1]) <= 32 and not itm.endswith("::position"):
+                # a search over a literal array: one test per element, in order (like an unrolled loop)
+                out, pending = [], [st]
+                for elem in args[0][1]:
+                    c = self.apply_closure(args[1], [elem])
+                    if c is None:
+                        out = None
+                        break
+                    nxt = []
+                    for s1 in pending:
+                        for s2, b in self.truth(c, s1):
+                            if b:
+                                out.append((s2, ("lit", True) if itm.endswith("::any") else ("ctor", SOME, (elem,))))
+                            else:
+                                nxt.append(s2)
+                    pending = nxt
+                if out is not None:
+                    out.extend((s1, ("lit", False) if itm.endswith("::any") else ("ctor", NONE, ())) for s1 in pending)
+                    return out
         if callee in ("core::slice::<impl [T]>::len", "core::array::<impl [T; N]>::len") and args and args[0][0] == "array":
             return [(st, ("lit", len(args[0][1])))]
         # identity conversions: From<T> for T / Into
